@@ -241,7 +241,7 @@ fn write_entry(
     // fields that this version's header layout has no room for must not be dropped silently
     {
         let old_header = file_format.version.is_old_header();
-        let mut no_field = |name: &str, is_set: bool| -> Result<(), ErrorReported> {
+        let no_field = |name: &str, is_set: bool| -> Result<(), ErrorReported> {
             if is_set { return Err(emitter.emit(error!("'{name}' cannot be stored in this version of the ANM format"))); }
             Ok(())
         };
